@@ -2,7 +2,14 @@
 """Regenerates MANIFEST.json from harness/manifest_entries.py (keeps it valid at all times)."""
 import json, os, sys
 sys.path.insert(0, os.path.dirname(os.path.abspath(__file__)))
-from harness.manifest_entries import ENTRIES, NOT_APPLICABLE, HOOK_COMMITS
+from harness.manifest_entries import NOT_APPLICABLE, HOOK_COMMITS
+import importlib, glob
+ENTRIES = {}
+for f in sorted(glob.glob(os.path.join(os.path.dirname(os.path.abspath(__file__)), "harness", "c[0-9][0-9].py"))):
+    pid = os.path.basename(f)[:-3].upper()
+    mod = importlib.import_module("harness." + pid.lower())
+    if getattr(mod, "MANIFEST", None):
+        ENTRIES[pid] = mod.MANIFEST
 
 ALL = ["C%02d" % i for i in range(1, 21)]
 checks = []
